@@ -176,7 +176,8 @@ def u1(ctx):
             if t.kind != "test":
                 continue
             lab = test_polarity_absent(t.ast, p_uid)
-            if lab:
+            if lab and not isinstance(t.ast, ast.Name):
+                # only `uid is None`: an empty UID is a UID (the scan registers it), a truthiness test lets it through unchecked
                 byp.append((t, lab))
             if dotted(t.ast) == "self._check_for_duplicate_uids":
                 byp.append((t, "f"))
@@ -591,3 +592,11 @@ def u8(ctx):
 def u9(ctx):
     from .c02 import e3
     return [o for o in e3(ctx) if "VdirStore" in o.construct]
+
+
+@rule("C06", "U10", floor=1, kind="N",
+      desc="an upload is checked as what it is: the File class (and with it the UID) is chosen from the bare media type, "
+           "whatever parameters the Content-Type carries (the media-type obligations of C14/V2)")
+def u10(ctx):
+    from .c14 import v2
+    return [o for o in v2(ctx) if "open_by_content_type" in o.construct]
